@@ -963,7 +963,7 @@ impl Model {
 impl Check for C13 {
     fn units(&self, ctx: &Ctx) -> usize {
         let n: usize = self.layout(ctx).iter().map(|(_, p)| p.len()).sum();
-        n + random_units(ctx) + churn_units(ctx)
+        n + random_units(ctx) + churn_units(ctx) + guard_pool_units(ctx)
     }
 
     fn run_unit(&self, ctx: &Ctx, idx: usize) -> UnitResult {
@@ -1015,8 +1015,10 @@ impl Check for C13 {
             if k < random_units(ctx) {
                 random_history(&mut r, ctx, k as u64, &mut stats);
                 r.stat("random_histories", r.evaluations as i64);
-            } else {
+            } else if k < random_units(ctx) + churn_units(ctx) {
                 churn(&mut r, ctx, (k - random_units(ctx)) as u64, &mut stats);
+            } else {
+                guard_pool(&mut r, ctx, (k - random_units(ctx) - churn_units(ctx)) as u64, &mut stats);
             }
         }
         r.stat("heap_ops_executed", stats.ops as i64);
@@ -1187,4 +1189,113 @@ fn churn(r: &mut UnitResult, ctx: &Ctx, shard: u64, stats: &mut Stats) {
     }
     drop(kept);
     drop(guards);
+}
+
+
+// ───────────────────── guard pool: many guards created, dropped and re-created ─────────────────────
+
+fn guard_pool_units(ctx: &Ctx) -> usize {
+    match ctx.engine.as_str() {
+        "miri" => 1,
+        _ => 8,
+    }
+}
+
+/// Histories built around the 16-entry pool of root lists: N guards (up to 40) with root
+/// lists of different sizes are dropped in some order (some still holding roots), then M
+/// fresh guards are created — possibly receiving a recycled root list — some allocate,
+/// and collections are compared with the model: an object must be alive exactly when a
+/// live guard reaches it, whatever a recycled list used to hold.
+fn guard_pool(r: &mut UnitResult, ctx: &Ctx, shard: u64, stats: &mut Stats) {
+    let runs = match (ctx.engine.as_str(), ctx.thorough()) {
+        ("miri", _) => 3,
+        (_, false) => 150,
+        (_, true) => 600,
+    };
+    for run in 0..runs {
+        let mut rng = Rng::derive("c13-guard-pool", shard, run);
+        let threshold0 = *rng.pick(&[0usize, 1, 100]);
+        let n_guards = 15 + rng.below(22); // 15..36: below, at and above the pool size
+        let mut hist: Vec<Op> = Vec::new();
+        let mut objs = 0usize;
+        // phase 1: guards with root lists of different lengths (0..7 objects each)
+        for g in 0..n_guards {
+            hist.push(Op::NewGuard);
+            let k = match rng.below(4) {
+                0 => 0,
+                1 => 1,
+                2 => 2 + rng.below(3),
+                _ => 5 + rng.below(3),
+            };
+            for _ in 0..k {
+                if objs < 200 {
+                    hist.push(Op::Alloc(g as u8));
+                    objs += 1;
+                }
+            }
+        }
+        if rng.chance(1, 2) {
+            hist.push(Op::Collect);
+        }
+        // phase 2: drop them (some cleared first, most still holding their roots) in a chosen order
+        let mut order: Vec<usize> = (0..n_guards).collect();
+        match rng.below(4) {
+            0 => {}
+            1 => order.reverse(),
+            _ => rng.shuffle(&mut order),
+        }
+        let keep_alive = rng.below(3); // a few guards stay alive across the phase
+        for (i, g) in order.iter().enumerate() {
+            if i < keep_alive {
+                continue;
+            }
+            if rng.chance(1, 5) {
+                hist.push(Op::Clear(*g as u8));
+            }
+            hist.push(Op::DropGuard(*g as u8));
+        }
+        if rng.chance(1, 2) {
+            hist.push(Op::Collect);
+        }
+        // phase 3: fresh guards (they may be handed a pooled root list), some allocate
+        let m_guards = 1 + rng.below(20);
+        for j in 0..m_guards {
+            hist.push(Op::NewGuard);
+            let gid = (n_guards + j) as u8;
+            if rng.chance(1, 3) && objs < 240 {
+                hist.push(Op::Alloc(gid));
+                objs += 1;
+            }
+            if rng.chance(1, 4) {
+                hist.push(Op::Collect);
+            }
+        }
+        hist.push(Op::Collect);
+        // phase 4: drop a few of the fresh ones and collect again
+        for j in 0..m_guards {
+            if rng.chance(1, 2) {
+                hist.push(Op::DropGuard((n_guards + j) as u8));
+            }
+        }
+        hist.push(Op::Collect);
+        if !history_valid(&hist, threshold0) {
+            continue;
+        }
+        r.evaluations += 1;
+        let before = *stats;
+        if let Some(d) = execute(&hist, threshold0, true, stats) {
+            let small = shrink(&hist, threshold0, d.class);
+            let mut s3 = Stats::default();
+            let d3 = execute(&small, threshold0, true, &mut s3).unwrap_or(d);
+            report(r, "guard-pool", threshold0, &small, d3);
+        }
+        if stats.swept > before.swept {
+            r.nontrivial += 1;
+        }
+        r.stat("guard_pool_histories", 1);
+        r.stat("max_guards_in_history", (n_guards + m_guards) as i64);
+        if run == 0 && shard == 0 {
+            r.sample(json!({"family": "guard-pool", "history": enc_hist(&hist)}));
+        }
+    }
 }
